@@ -26,7 +26,8 @@ for spec in specs:
     faulthandler.dump_traceback_later(int(os.environ.get('VERIF_BATCH_WATCHDOG', '60')), exit=True)
     try:
         with open(os.path.join(ctl, 'control.json'), 'w') as f:
-            json.dump({'fault': spec.get('fault'), 'delays': spec.get('delays'), 'collectors': spec['collector_ids']}, f)
+            json.dump({'fault': spec.get('fault'), 'delays': spec.get('delays'), 'collectors': spec['collector_ids'],
+                       'collector_priority': spec.get('collector_priority')}, f)
         params = {k: (range(*v['__range__']) if isinstance(v, dict) and '__range__' in v else v) for k, v in spec['grid'].items()}
         params['ctl'] = ctl
         params['stop'] = spec['stop']
@@ -51,7 +52,11 @@ for spec in specs:
             out['result'] = res
             out['aliasing'] = len({id(r) for r in res}) != len(res) if isinstance(res, list) else None
         except BaseException as e:  # noqa
-            out['raised'] = {'type': type(e).__name__, 'tag': getattr(e, 'tag', None), 'str': str(e)[:200]}
+            chain, cur = [], e
+            while cur is not None and len(chain) < 6:       # the error itself and what it was raised from
+                chain.append({'type': type(cur).__name__, 'tag': getattr(cur, 'tag', None)})
+                cur = cur.__cause__ or cur.__context__
+            out['raised'] = {'type': type(e).__name__, 'tag': getattr(e, 'tag', None), 'str': str(e)[:200], 'chain': chain}
         out['wall'] = time.time() - t0
         out['constructions'] = len([f for f in os.listdir(ctl) if f.startswith('ord_')])
     finally:
